@@ -123,20 +123,20 @@ REGENERATED = {
     "C03": " The window loop of _interval_integral_matching_stretch (zip over targets and consecutive fixed points, end+1, in-place slice assignment) is "
            "REGENERATED (Gen/MatchGlue.v) and proved equal to the model's interval_match (C03_glue_interval_loop); so is the whole stretching kernel "
            "_integral_matching_stretch (method check, two-point special case, rule dispatch, final update: C03_glue_stretch_kernel).",
-    "C04": " The rfa() bodies of PiecewiseConstantRFA / FunctionRFA and the oversampling helpers are REGENERATED (Gen/RfaGlue.v) and proved equal to the model.",
+    "C04": " The rfa() bodies of PiecewiseConstantRFA / FunctionRFA and the oversampling helpers are REGENERATED (Gen/RfaGlue.v) and proved equal to the model. Every strategy constructor (`__init__` incl. super() chains, defaults, the pinned CubicSpline supplier) and _get_sampling_function are REGENERATED (Gen/CtorsGlue.v); constructor followed by rfa() is proved equal to the model recreate for the piecewise-constant strategy (C04_glue_*_init, C04_glue_piecewise_ctor_then_rfa).",
     "C05": " The strategy constructors' window computations are REGENERATED (Gen/Kernels.v) and proved equal to the model's window functions; the rfa() "
            "bodies of the two fixed-window strategies (nested write loops over IntervalArrays) are REGENERATED (Gen/RfaGlue.v) and proved equal to the "
-           "write-loop model that the link theorems refine to the closed forms.",
+           "write-loop model that the link theorems refine to the closed forms. The whole constructors of the fixed-window strategies are REGENERATED (Gen/CtorsGlue.v): the attributes they store are the model's window parameters, and constructor followed by rfa() equals the model recreate (C05_glue_*_init, C05_glue_*_ctor_then_rfa).",
     "C06": " The generic branch of get_adaptive_transition_points is REGENERATED (Gen/Kernels.v) and proved equal to adaptive_pair; the rfa() bodies of the "
            "two adaptive strategies and the whole of get_adaptive_transition_points (tie tests, int(a/2), the smoothed split with both clips) are REGENERATED "
-           "(Gen/RfaGlue.v) and proved equal to the write-loop model / adaptive_windows.",
+           "(Gen/RfaGlue.v) and proved equal to the write-loop model / adaptive_windows. The whole constructors of the adaptive strategies are REGENERATED (Gen/CtorsGlue.v); constructor followed by rfa() equals the model recreate (C06_glue_*_init, C06_glue_*_ctor_then_rfa).",
     "C08": " Every method body of class Weaver is REGENERATED from weaver.py as a term of the glue language (Gen/WeaverGlue.v) and running it is proved equal to "
            "one step of the model for every operation (C09_glue_generated; domain corollary C08_glue_domain); the per-method write footprint is REGENERATED "
            "too (Gen/WeaverFootprint.v) and the reference is assigned iff the working series is.",
     "C09": " Every method body of class Weaver (incl. the constructor and the getters, parameter lists and defaults, the module's imports) is REGENERATED from "
            "weaver.py (Gen/WeaverGlue.v) and running it under the interpreter of Model/GlueSem.v is proved equal to the model's step / init / queries for every "
            "operation, state and argument — also the partial state an exception leaves behind (C09_glue_generated, C09_glue_init, C09_glue_getters, "
-           "C09_glue_imports); footprint theorems over Gen/WeaverFootprint.v.",
+           "C09_glue_imports); footprint theorems over Gen/WeaverFootprint.v. The three static constructors from_2d_array / from_csv / from_dataframe are REGENERATED (Gen/CtorsGlue.v) and proved equal to init on the two columns (C09_glue_from_*).",
     "C10": " The three two-pointer scans themselves (while loops over explicit iterators) are REGENERATED (Gen/ScanGlue.v) and, run by the fuelled interpreter of "
            "Model/GlueWhile.v, proved equal to the scans of Model/Search.v (C10_glue_find_lower / _higher / _closest, explicit fuel bound); the dispatcher "
            "find_closest_element_indices_to_values likewise (Gen/UtilsGlue.v).",
@@ -145,11 +145,16 @@ REGENERATED = {
     "C12": " The body of process.repeat (tiling, the loop over the copies, the in-place slice update with the junction gap) is REGENERATED (Gen/ProcessGlue.v) and "
            "proved equal to the model's repeat_series (C12_glue_repeat).",
     "C13": " The dispatcher process.interpolate is REGENERATED (Gen/ProcessGlue.v) and proved to select the model's linear / constant interpolation and to reject "
-           "every other method name except 'cubic' / 'spline' (C13_glue_interpolate).",
+           "every other method name except 'cubic' / 'spline' (C13_glue_interpolate). _piecewise_constant_interpolate (masks, the lower-neighbour search as the already regenerated scan, the `left` fill) is REGENERATED (Gen/Process2Glue.v) and proved equal to interp_constant (C13_glue_piecewise_constant, C13_glue_piecewise_constant_scan_leaf).",
     "C14": " The bodies of process.trend (the per-sample loop, both branches of `normalized`) and process.normalize are REGENERATED (Gen/ProcessGlue.v) and proved equal "
            "to the model (C14_glue_trend, C14_glue_normalize).",
+    "C15": " The whole body of noise_gauss is REGENERATED (Gen/Process2Glue.v): which of std, sqrt(mean(a^2)/snr), sqrt(mean(a^2)/10^(snr/10)) - scalar or "
+           "per sample - reaches numpy.random.normal(loc=0, scale, size=a.shape), and that the result is a + draw (C15_glue_noise_scale_db / _linear / _std; "
+           "`**` is an abstract power of which only v**2 = v*v is assumed, as a hypothesis of the theorems).",
+    "C20": " The n < 2 check is proved on the REGENERATED constructors of every class of rfa.py's class table (Gen/CtorsGlue.v: C20_glue_rfa_init_refuses_small_n, "
+           "C20_glue_rfa_class_names) and the (N,2) shape check on the REGENERATED from_2d_array (C20_glue_from_2d_array_refuses).",
     "C17": " The bodies of append_one_sample, integral, the two integration rules, extend_constant, extend_linspace and oversample_piecewise_constant are "
-           "REGENERATED (Gen/UtilsGlue.v) and proved equal to the model.",
+           "REGENERATED (Gen/UtilsGlue.v) and proved equal to the model. So are oversample_linspace, sum_over_indices and process.average (Gen/Process2Glue.v: C17_glue_oversample_linspace, C17_glue_sum_over_indices, C17_glue_average) and every method of class IntervalArray except __iter__/__repr__ (Gen/IntervalGlue.v: indexing incl. IndexError and negative wrap-around, 2-D layouts with NaN padding, oversample*, extend_*: C17_glue_interval_*), which are also proved to be the IntervalArray leaves the RFA glue proofs rest on.",
     "C18": " The name dispatch of load_dataset and the data-home resolution are REGENERATED from datasets/_base.py (Gen/Dispatch.v) and proved equal to the model.",
     "C19": " The loader's guards (download / refuse / read cache), the retry give-up test and counter update, the checksum rejection, and the order and scoping of "
            "its effects (fresh TemporaryDirectory inside the dataset directory; download, parse source, pickle target and rename source all inside it; rename "
